@@ -21,10 +21,25 @@ def mutants(path, text):
     for i in range(end):
         l = lines[i]
         st = l.strip()
-        if st.endswith(";") and not st.startswith(("let ", "use ", "//", "pub ", "type ", "return")) and "(" in st and l.startswith("    "):
+        only_new = "--swap" in sys.argv or "--ror" in sys.argv
+        if not only_new and st.endswith(";") and not st.startswith(("let ", "use ", "//", "pub ", "type ", "return")) and "(" in st and l.startswith("    "):
             out.append(("del %d: %s" % (i + 1, st[:70]), "\n".join(lines[:i] + lines[i + 1:])))
+        # swap two adjacent call statements of the same block (ordering mutants)
+        if i + 1 < end and "--swap" in sys.argv:
+            l2 = lines[i + 1]
+            st2 = l2.strip()
+            ind = len(l) - len(l.lstrip())
+            if st.endswith(";") and st2.endswith(";") and "(" in st and "(" in st2 and ind == len(l2) - len(l2.lstrip()) and ind >= 4 \
+                    and not st.startswith(("let ", "use ", "//", "return", "break", "continue")) \
+                    and not st2.startswith(("let ", "use ", "//", "return", "break", "continue")) and st != st2:
+                out.append(("swap %d/%d: %s <-> %s" % (i + 1, i + 2, st[:40], st2[:40]), "\n".join(lines[:i] + [l2, l] + lines[i + 2:])))
+        # relational operator replacement
+        if "--ror" in sys.argv and l.startswith("    ") and not st.startswith(("//", "fn ", "pub ", "impl", "where", "use ")):
+            for (a, b_) in ((" < ", " <= "), (" <= ", " < "), (" > ", " >= "), (" >= ", " > "), (" == ", " != "), (" != ", " == "), (" && ", " || "), (" || ", " && ")):
+                if a in l and "->" not in l and "::<" not in l:
+                    out.append(("ror %d: %s [%s->%s]" % (i + 1, st[:60], a.strip(), b_.strip()), "\n".join(lines[:i] + [l.replace(a, b_, 1)] + lines[i + 1:])))
         m = re.match(r"^(\s+)(\}? ?(?:else )?if )(!?)(.*) \{$", l)
-        if m and "let " not in l:
+        if m and "let " not in l and not only_new:
             cond = m.group(4)
             neg = (m.group(1) + m.group(2) + ("" if m.group(3) else "!(") + cond + ("" if m.group(3) else ")") + " {")
             out.append(("neg %d: %s" % (i + 1, st[:70]), "\n".join(lines[:i] + [neg] + lines[i + 1:])))
